@@ -250,7 +250,7 @@ def one_case(ctx, a, b, c):
         ctx.violation('C15/raises', f'arithmetic/comparison raised {type(e).__name__}: {e}', w)
 
 
-def run(ctx):
+def _run_workload(ctx):
     install()
     Sink.ctx = ctx
     F = fields()
@@ -286,3 +286,11 @@ LEVEL_TEXT = ('Runtime monitoring: icontract post-conditions on the real Capacit
 LEVEL_NOTE = ('Trusted: Python int arithmetic, icontract wrappers, the harness generator. Not covered: fields set to '
               'None, non-int field values.')
 TECHNIQUE = 'runtime contract monitors (icontract) on the real operators + randomized algebraic-law workload'
+
+
+def run(ctx):
+    _run_workload(ctx)
+    # thorough tier: the repository's own tests replayed under the monitors (one shard does it)
+    if not ctx.quick and ctx.shard == 0:
+        from vlib import pytest_monitors
+        pytest_monitors.run_under_monitors(ctx, 'C15/')
